@@ -177,7 +177,7 @@ class PathSym:
             return ("binop", rv[1], self.expr_of_operand(rv[2], pos, depth),
                     self.expr_of_operand(rv[3], pos, depth))
         if k == "unop":
-            return ("unop", rv[1], self.expr_of_operand(rv[2], pos, depth))
+            return simplify(("unop", rv[1], self.expr_of_operand(rv[2], pos, depth)))
         if k == "discr":
             return ("discr", self.expr_of_place(rv[1], pos, depth))
         if k == "aggregate":
@@ -218,6 +218,8 @@ def simplify(e):
         return e
     if e[0] == "deref" and isinstance(e[1], tuple) and e[1][0] == "ref":
         return e[1][1]
+    if e[0] == "unop" and e[1] == "Not" and isinstance(e[2], tuple) and e[2][0] == "const" and e[2][1] == "bool":
+        return ("const", "bool", not e[2][2])
     if e[0] == "field" and isinstance(e[1], tuple) and e[1][0] == "agg":
         agg = e[1]
         names = agg[3]
